@@ -118,6 +118,9 @@ def run(chk):
         m, st = c02.correspondence(chk, model, r, files, opts, name)
         if not r.get("ok"):
             dist["failed"] += 1
+            if expect and expect.get("data") is not None:
+                chk.oracle_failure(None, "%s: regression witness no longer assembles: %s (%s)" % (
+                    name, [e["msg"] for e in (r.get("errors") or [])][:3] or r.get("panic"), expect.get("why", "")), {"files": files, "opts": opts})
             chk.count(1, 0)
             return
         dist["ok"] += 1
